@@ -3,6 +3,7 @@
 -/
 import MotoModel.Model.LineTools
 import MotoModel.Spec.LineTools
+import MotoModel.Proofs.ConvCli
 namespace Moto.C15
 open Moto Moto.Spec
 
@@ -222,5 +223,36 @@ theorem roundtrip (dos : Bool) (text : Str) :
     simp only [List.nil_append]
     rw [show [] :: l :: (rest ++ [[]]) = ([] :: l :: rest) ++ [[]] from rfl, List.filter_append]
     simp
+
+
+/-! ### at the command line (Model/ConvCli.lean: the `run()` of the two converters) -/
+
+/-- **C15 (the two commands, file to file)**: `moto_lst2bas name.lst,a` reads the listing `name.lst` and writes `name.bas` beside
+    it — the ASCII BASIC form: a 7-bit file that starts with CR and holds each source line, right-trimmed, followed by CR — and
+    nothing else; `moto_bas2lst name.bas,a [--dos]` on that file then writes `name.lst` — the listing's non-blank lines, in order,
+    each followed by the selected line ending.  Extension and option in either letter case; `stem` is any path prefix, dots and
+    directories included. -/
+theorem cli_roundtrip (w : Str → Option Str) (stem lst optA bas optB text : Str) (dos : Bool)
+    (hlst : upper lst = Conv.str "LST") (hA : upper optA = Conv.str ",A") (hbas : upper bas = Conv.str "BAS") (hB : upper optB = Conv.str ",A")
+    (hw : w (stem ++ 46 :: lst) = some text) :
+    Conv.lst2basOne w (stem ++ 46 :: (lst ++ optA)) = { writes := [(stem ++ 46 :: Conv.str "bas", toAsciiBasic text)] }
+    ∧ ∀ wb : Str → Option Bytes, wb (stem ++ [46] ++ bas) = some (toAsciiBasic text) →
+        Conv.bas2lstOne wb dos (stem ++ [46] ++ (bas ++ optB))
+          = { writes := [(stem ++ [46] ++ Conv.str "lst",
+                (((readlines text).map norm).filter (· ≠ [])).flatMap (· ++ (if dos then [13, 10] else [10])))] } := by
+  refine ⟨Conv.lst2bas_ascii w stem lst optA text hlst hA hw, ?_⟩
+  intro wb hwb
+  rw [Conv.bas2lst_ascii wb dos (stem ++ [46]) bas optB (toAsciiBasic text) hbas hB hwb, roundtrip]
+
+/-- several sources: converted in order; a failing one ends the run, the earlier results stay -/
+theorem cli_sources_in_order (one : Str → Conv.Out) (s : Str) (rest : List Str) :
+    ((one s).err = none → Conv.runSeq one (s :: rest)
+        = { writes := (one s).writes ++ (Conv.runSeq one rest).writes, err := (Conv.runSeq one rest).err })
+    ∧ (∀ e, (one s).err = some e → Conv.runSeq one (s :: rest) = one s) :=
+  ⟨Conv.runSeq_ok one s rest, fun e => Conv.runSeq_fail one s rest e⟩
+
+/-- the hypotheses are met -/
+example : Conv.lst2basRun (fun p => if p = Conv.str "d.x/p.Lst" then some (Conv.str "10 a  \n\n20 b\n") else none) [Conv.str "d.x/p.Lst,A"]
+    = { writes := [(Conv.str "d.x/p.bas", [13, 49, 48, 32, 97, 13, 13, 50, 48, 32, 98, 13])] } := by decide +kernel
 
 end Moto.C15
